@@ -240,3 +240,54 @@ Proof.
   destruct (Hleaf k (or_introl eq_refl)) as (dk & Ek & [Lk _]). cbn [pg_rv]. rewrite Ek, Lk. cbn [pg_is_null].
   unfold pgx_mk_obj. rewrite Ek. reflexivity.
 Qed.
+
+(* ------------------------------------------------------------------ the hypothesis of the theorems is decidable *)
+Lemma pgx_memN_In : forall x l, pg_memN x l = false -> ~ In x l.
+Proof.
+  intros x l H Hin. unfold pg_memN in H. assert (existsb (N.eqb x) l = true); [|congruence].
+  apply existsb_exists. exists x. split; [exact Hin|apply N.eqb_refl].
+Qed.
+
+Lemma pgx_nodup_chk_sound : forall l, pgx_nodup_chk l = true -> NoDup l.
+Proof.
+  induction l as [|x t IH]; intros H; [constructor|]. cbn in H. apply andb_prop in H. destruct H as [H1 H2].
+  constructor; [apply pgx_memN_In; destruct (pg_memN x t); [discriminate|reflexivity]|apply IH, H2].
+Qed.
+
+Lemma pgx_all_refs : forall l, forallb pg_is_ref l = true -> l = map PvRef (map (fun v => match v with PvRef k => k | _ => 0 end) l).
+Proof.
+  induction l as [|v t IH]; intros H; [reflexivity|]. cbn in H. apply andb_prop in H. destruct H as [H1 H2].
+  destruct v; try discriminate. cbn. f_equal. apply IH, H2.
+Qed.
+
+Lemma pgx_leafy_chk_sound : forall s k, pgx_leafy_chk s k = true -> exists dk, pg_lookup s k = Some (PcObj (PvDict dk)) /\ pgx_leafy dk.
+Proof.
+  intros s k H. unfold pgx_leafy_chk in H. destruct (pg_lookup s k) as [[v|]|]; try discriminate. destruct v; try discriminate.
+  exists l. split; [reflexivity|]. apply andb_prop in H. destruct H as [H1 H2]. split.
+  - destruct (pg_dget l pgk_Kids); try discriminate. reflexivity.
+  - destruct (pg_dget l pgk_Type); try exact I; [|discriminate].
+    apply andb_prop in H2. destruct H2 as [A B]. split; intros ->; rewrite pg_key_eqb_refl in *; discriminate.
+Qed.
+
+(* the executable test the harness runs on its documents and states (PgxOracle.pgx_flat_chk) implies the hypothesis of the
+   unrestricted theorems *)
+Lemma flat_check_sound_lemma : forall p, pgx_flat_chk p = true -> pgx_flat p (pgx_K p).
+Proof.
+  intros p H. unfold pgx_flat_chk in H. unfold pgx_K, pg_kids_of.
+  destruct (pg_root_pages p) as [| | |pn| |] eqn:Hroot; try discriminate.
+  destruct (pg_lookup (pd_store p) pn) as [[v|]|] eqn:Hpn; try discriminate. destruct v as [| | | | |d]; try discriminate.
+  rewrite (pgx_hget_ref _ pn d pgk_Kids Hpn).
+  destruct (pg_dget d pgk_Kids) as [| | | |l|] eqn:Hkids; try discriminate.
+  set (K := map (fun v => match v with PvRef k => k | _ => 0 end) l) in *.
+  repeat (apply andb_prop in H; destruct H as [H ?]).
+  exists pn, d. split; [exact Hroot|]. split; [exact Hpn|].
+  split; [rewrite Hkids; f_equal; apply pgx_all_refs; assumption|].
+  split; [destruct (pg_dget d pgk_Count); try discriminate; f_equal; apply Z.eqb_eq; assumption|].
+  split; [destruct (pg_dget d pgk_Parent); try discriminate; reflexivity|].
+  split; [apply N.eqb_neq; destruct (pn =? pd_root p); [discriminate|reflexivity]|].
+  split; [apply pgx_memN_In; destruct (pg_memN pn K); [discriminate|reflexivity]|].
+  split; [apply pgx_memN_In; destruct (pg_memN (pd_root p) K); [discriminate|reflexivity]|].
+  split; [apply pgx_nodup_chk_sound; assumption|].
+  split; [|destruct (pd_invalid p); [discriminate|reflexivity]].
+  intros k Hk. apply pgx_leafy_chk_sound. match goal with Hf : forallb (pgx_leafy_chk _) K = true |- _ => rewrite forallb_forall in Hf; apply Hf, Hk end.
+Qed.
